@@ -175,7 +175,9 @@ run_reader(struct sop *ops, size_t n, const unsigned char *data, size_t len, str
         pad += 64;
     }
     buf = calloc(len + pad, 1);
-    memcpy(buf, data, len);
+    if (len) {
+        memcpy(buf, data, len);
+    }
     ly_in_new_memory(buf, &in);
     lybctx->in = in;
     vin = in;
@@ -424,7 +426,9 @@ main(void)
                         vputhex(mem, out->method.mem.len);
                         /* reader side */
                         buf = calloc(out->method.mem.len + 64, 1);
-                        memcpy(buf, mem, out->method.mem.len);
+                        if (out->method.mem.len) {
+                            memcpy(buf, mem, out->method.mem.len);
+                        }
                         ly_in_new_memory(buf, &in);
                         rctx.ctx = sctx;
                         rctx.in = in;
